@@ -318,6 +318,10 @@ func GenC11(seed uint64, idx int) *Scenario {
 				}
 				op.Buf = 1 + r.Intn(2)
 				op.Hold = r.Intn(6) != 0
+				if op.Target > 0 && r.Intn(5) == 0 {
+					// the target holds a value the caller built itself (exactly sized slices, other time zones...)
+					ops = append(ops, Op{Kind: "fill", Type: tn, Target: op.Target, VSeed: r.Next() | 1, VSize: 2 + r.Intn(16), Vocab: vocab, Pat: "raw"})
+				}
 				ops = append(ops, op)
 			case k < 7:
 				ops = append(ops, Op{Kind: "scribble", Buf: 1 + r.Intn(2), Pat: scribblePats[r.Intn(len(scribblePats))], Arg: r.Intn(1000)})
